@@ -30,6 +30,7 @@ import XdslModel.Lexer
 import XdslModel.ArithRules
 import XdslModel.CSE
 import XdslModel.DeclFormat
+import XdslModel.PDL
 /-!
 Model registry for the driver: `MODEL <name>` selects a `(state, lineStep)` pair.
 A continuation-passing encoding is used because the state types differ.
@@ -72,6 +73,7 @@ def run? (name : String) : Option Runner :=
   | "arith_rules" => some fun k => k ArithRules.lineStep ()
   | "cse" => some fun k => k CSE.lineStep ()
   | "decl_format" => some fun k => k DeclFormat.lineStep {}
+  | "pdl" => some fun k => k PDL.lineStep {}
   | _ => none
 
 end Xdsl.Registry
